@@ -17,11 +17,11 @@ func specUnix(y, m, d int) int64 {
 	return time.Date(y, time.Month(m), d, 0, 0, 0, 0, time.UTC).UnixNano()
 }
 
-// specOffset: number of insertions at or before the instant (ns since Unix epoch).
+// specOffset: one second (in ns) per insertion at or before the instant (ns since Unix epoch).
 func specOffset(ns int64) int64 {
 	var n int64
 	for _, ld := range specLeapDates {
-		n += verifIteI64(ns >= specUnix(ld[0], ld[1], ld[2]), 1, 0)
+		n += verifIteI64(ns >= specUnix(ld[0], ld[1], ld[2]), 1000000000, 0)
 	}
 	return n
 }
@@ -56,7 +56,7 @@ func VerifC20_GPSRoundTrip() {
 func VerifC20_GPSOffset() {
 	t, ns := c20Instant("t")
 	d := Time(t).TimeSinceGPSEpoch()
-	want := time.Duration(ns-specGPSEpochUnix*1000000000) + time.Duration(specOffset(ns))*time.Second
+	want := time.Duration(ns-specGPSEpochUnix*1000000000) + time.Duration(specOffset(ns))
 	verifAssertKnown("C20-gps-last-second", specInLastSecond(ns), d == want, "time since GPS epoch == elapsed UTC time + number of leap seconds inserted at or before that date")
 	verifReach("done")
 }
